@@ -17,6 +17,11 @@
 //	finish <id> <code> …          -> unparked <pass|fallback> <state> done <code> <state>   when a request is parked *and holds the lock*
 //	                                 (probed with String(), 25 ms): the parked request is decided first, then the completion proceeds;
 //	                                 if the parked request does not hold the lock the completion simply proceeds and it stays parked
+//	finish2 <id1> <c1> <id2> <c2> [q=…] -> unparked <pass|fallback> done2 <c1> <c2> <state>   only while a request is parked and the breaker is
+//	                                 recovering (now <= until) or tripped (now < until): both handlers return one after the other, both
+//	                                 requests run metrics.Record and then wait for the lock the parked request holds (25 ms each), then the
+//	                                 parked request is released: Record_1 Record_2 <decision> checkAndSet checkAndSet — the schedule in which
+//	                                 the one evaluation sees both responses.  q= is the oracle after both records.
 //	state                         -> standby | tripped until=<ns> | recovering until=<ns>   (parsed from CircuitBreaker.String())
 //	effects                       -> effects tripped=<n> standby=<n>   (executions of the registered OnTripped / OnStandby side effects)
 //
@@ -124,6 +129,20 @@ func (s *h) isFallback(rec *httptest.ResponseRecorder) bool {
 		return rec.Code == http.StatusFound && rec.Header().Get("Location") == "http://fallback.example/fb"
 	}
 	return rec.Header().Get("X-Fb") == "1" && rec.Code == http.StatusServiceUnavailable
+}
+
+// decisionKeepsState: judging by the last printed state, the decision of a request arriving now cannot move the state
+// (recovering and not past the deadline, or tripped and before it)
+func (s *h) decisionKeepsState() bool {
+	g := strings.Fields(s.prevState)
+	if len(g) != 2 || !strings.HasPrefix(g[1], "until=") {
+		return false
+	}
+	u, err := strconv.ParseInt(g[1][6:], 10, 64)
+	if err != nil {
+		return false
+	}
+	return (g[0] == "recovering" && hx.NowNs() <= u) || (g[0] == "tripped" && hx.NowNs() < u)
 }
 
 // decided waits until a released (or never parked) request is inside the protected handler or answered.
@@ -387,6 +406,61 @@ func (s *h) op(f []string, line *string) string {
 			}
 		}
 		return fmt.Sprintf("%sdone %d %s%s%s", prefix, fl.rec.Code, st, q, mismatch)
+	case f[0] == "finish2" && len(f) >= 5:
+		f1, ok1 := s.flights[f[1]]
+		f2, ok2 := s.flights[f[3]]
+		if !ok1 || !ok2 || f[1] == f[3] || s.parkedID == "" || f[1] == s.parkedID || f[3] == s.parkedID || !s.decisionKeepsState() {
+			return "bad-op"
+		}
+		c1, c2 := hx.Atoi(f[2]), hx.Atoi(f[4])
+		probe := make(chan string, 1)
+		go func() { probe <- s.state() }()
+		select {
+		case <-probe:
+			return "finish2-lock-not-held"
+		case <-time.After(parkProbe):
+		}
+		s.shadow.Record(c1, clock.Now().UTC().Sub(f1.start))
+		f1.release <- c1
+		select {
+		case <-f1.done:
+			return "finish2-first-not-blocked"
+		case <-time.After(parkProbe):
+		}
+		s.shadow.Record(c2, clock.Now().UTC().Sub(f2.start))
+		orc := s.oracle()
+		f2.release <- c2
+		select {
+		case <-f2.done:
+			return "finish2-second-not-blocked"
+		case <-time.After(parkProbe):
+		}
+		pid := s.parkedID
+		pf := s.flights[pid]
+		pf.start = clock.Now().UTC()
+		s.parkedID = ""
+		close(pf.unpark)
+		ra := s.decided(pid, pf)
+		<-probe
+		<-f1.done
+		<-f2.done
+		delete(s.flights, f[1])
+		delete(s.flights, f[3])
+		q := s.quiesce()
+		st := s.state()
+		if strings.HasPrefix(st, "tripped") && !strings.HasPrefix(s.prevState, "tripped") {
+			s.shadow.Reset()
+		}
+		s.prevState = st
+		mismatch := ""
+		if orc != "" {
+			if annotate {
+				*line = strings.Join(f[:5], " ") + " q=" + orc
+			} else if given, _ := hx.KV(f, "q"); given != orc {
+				mismatch = " oracle-mismatch=" + orc
+			}
+		}
+		return fmt.Sprintf("unparked %s done2 %d %d %s%s%s", ra, f1.rec.Code, f2.rec.Code, st, q, mismatch)
 	case f[0] == "state" && len(f) == 1:
 		if s.parkedID != "" {
 			return "bad-op"
